@@ -31,7 +31,7 @@ from operon_ai.providers import LLMResponse, ToolCall
 ID = "C18"
 LEVEL = "exploration"
 ENGINE = "seq"
-RUNS = {"quick": 40_000, "thorough": 2_000_000}
+RUNS = {"quick": 200_000, "thorough": 10_000_000}
 RULE = ("runs 0..10304 enumerate, per loop, every limit value 0..4 (swarm: both limits, 25 pairs) x every peer script of "
         "length <=3 over the loop's alphabet with the last symbol repeating forever (heal: {non-JSON, schema-invalid, "
         "valid, echo the error, raise, never-repeating} x {plain, error-tagging} chaperone x {repeat-last, cycle}; swarm: "
@@ -305,6 +305,7 @@ def _run_heal(plan, k, tr):
         else:
             k.violation("err_threaded", "retry_without_previous_error", "heal/" + ("retry1" if j == 1 else "retryN"),
                         f"retry {j} received {('None' if ctx is None else repr(str(ctx)[:80]))}, previous error was {errs[-1][:80]!r}")
+            break           # one root cause, one signature: report the first retry that was starved
     if n >= bound:
         k.nontrivial = True
     if not out.ok:
